@@ -642,6 +642,13 @@ class UpdateCollection(Message):
             # MP_REACH_NLRI contains nexthop - use iter_routed() for RoutedNLRI
             announces.extend(reach.iter_routed())
 
+        if Attribute.CODE.INTERNAL_TREAT_AS_WITHDRAW in attributes:
+            # RFC 7606 section 2: a malformed attribute of this class means every route of the UPDATE
+            # is handled as if it had been withdrawn.  The marker was set and then nothing read it: the
+            # routes were reported as announced and stored, only without the attribute which was wrong.
+            withdraws.extend(routed.nlri for routed in announces)
+            announces = []
+
         return cls(announces, withdraws, attributes)
 
     # EOR prefix for non-IPv4-unicast families
